@@ -74,7 +74,9 @@ def usable(e, kinds):
   if e['ev'] in ('CallConsPairs', 'CallConsChunks'):
     return True
   if e['ev'] in ('CallFitCov', 'CallFitRca'):
-    return np.asarray(e['X']).ndim == 2 and np.asarray(e['L']).ndim == 2
+    # (some repository tests fit RCA on deliberately rank-deficient data and only check the warning: the resulting non-finite
+    #  components_ are outside the property's quantifier - well-formed input - and are left out)
+    return np.asarray(e['X']).ndim == 2 and np.asarray(e['L']).ndim == 2 and np.isfinite(np.asarray(e['L'], dtype=float)).all()
   L = np.asarray(e['L'], dtype=float)
   if L.ndim != 2 or L.shape[0] == 0:
     return False
